@@ -69,15 +69,15 @@ class ParseCase:
     def default_unwind(self):
         return max(self.L, self.g.max_rhs) + 2
 
-    def query(self, qid=None, witness=False, timeout=900, mem_gb=12, extra_defs=()):
+    def query(self, qid=None, witness=False, timeout=900, mem_gb=12, extra_defs=(), witness_expr=None, wtag=''):
         defs = list(self.defs) + list(extra_defs)
         if self.in_assume: defs.append('IN_ASSUME=%s' % self.in_assume)
         h = self.harness
         if witness:
             # witness twin: same harness, the final assertions replaced by the negation of a reachable interesting outcome
             h = h.replace('static void oracle(void) {', 'static void oracle_unused(void) {', 1)
-            h = h.replace('#ifdef __CPROVER__\nuint8_t nondet_uchar', 'static void oracle(void) { struct ref_out R; ref_parse(IN, LEN, OPTS & 1u, (OPTS >> 1) & 1u, (OPTS >> 2) & 1u, &R);\n  WITNESS(%s, "interesting outcome reachable"); }\n#ifdef __CPROVER__\nuint8_t nondet_uchar' % self.witness, 1)
-        q = vlib.Query((qid or ('q_' + self.name)) + ('_wit' if witness else ''), self.unit, h, bounds=self.bounds(), fn_bounds=self.fn_bounds(),
+            h = h.replace('#ifdef __CPROVER__\nuint8_t nondet_uchar', 'static void oracle(void) { struct ref_out R; ref_parse(IN, LEN, OPTS & 1u, (OPTS >> 1) & 1u, (OPTS >> 2) & 1u, &R);\n  WITNESS(%s, "interesting outcome reachable"); }\n#ifdef __CPROVER__\nuint8_t nondet_uchar' % (witness_expr or self.witness), 1)
+        q = vlib.Query((qid or ('q_' + self.name)) + (('_wit' + wtag) if witness else ''), self.unit, h, bounds=self.bounds(), fn_bounds=self.fn_bounds(),
                        default_unwind=self.default_unwind(), mode=('functional' if self.mode == 'writeset' else self.mode), defines=defs,
                        expect=('witness' if witness else 'hold'), timeout=timeout, mem_gb=mem_gb, inputs=['IN', 'OPTS', 'ANS_IDX', 'ANS_LEN'],
                        meta={'unit': self.g.name, 'L': self.L, 'opts': [self.ws, self.nl, self.verbose], 'asserts': self.asserts, 'case': self})
